@@ -32,7 +32,8 @@ class Layout:
 def gen_layout(rng, reuse_names=True):
     L = Layout()
     # names that are STRING prefixes of one another (package `a`, package `ab`, module `a_types`, module `svc2`): a name test must be on dotted components
-    tops = rng.sample(["main", "utils", "config", "core", "a_types", "svc2"], rng.randint(1, 4))
+    # a module whose NAME merely ends in `__init__` (utils__init__.py) is an ordinary module, not the initialiser of `utils` (F70)
+    tops = rng.sample(["main", "utils", "config", "core", "a_types", "svc2", "utils__init__"], rng.randint(1, 4))
     for t in tops:
         L.mods[t] = {"pkg": False, "stmts": [], "defs": ["fn_" + t + "_top"]}
     pkgs = rng.sample(["a", "b", "svc", "ab"], rng.randint(1, 4))
@@ -235,6 +236,10 @@ for importer, pkg, name, fromlist, level in log:
         for n in fromlist:
             full = base + "." + n
             if isinstance(getattr(bm, n, None), types.ModuleType) and full in sys.modules:
+                targets.append(full)
+            elif getattr(bm, n, None) is None and full in mods:
+                # the attribute is absent afterwards (an import of the cycle failed and CPython removed the half-initialised submodule again):
+                # importlib._handle_fromlist imports the submodule whenever the package has no such attribute, so the statement did bind it
                 targets.append(full)
             else:
                 obj = getattr(bm, n, None)
